@@ -282,7 +282,7 @@ def _radio_sampler(N):
 
 
 def job_eas_radio(N, det_alt, tier):
-    return harness.run_job(f"EASRadio.__call__(N={N},detector {det_alt} km)", eas_radio_run(N, det_alt), timeout_ms=120000 if tier == "quick" else 600000, second=(tier == "thorough"),
+    return harness.run_job(f"EASRadio.__call__(N={N},detector {det_alt} km)", eas_radio_run(N, det_alt), timeout_ms=240000 if tier == "quick" else 600000, second=(tier == "thorough"),
                            prune_timeout_ms=5000, witness=(_radio_sampler(N), 80))
 
 
